@@ -38,9 +38,15 @@ def check_ident_or_index(cx, rep, rule='IDX-HELPER'):
     f = fs[0]
     t = fn_term(cx, f)
     FROM = ('Self::from', 'IdentOrIndex::from', 'crate::common::ident_index::IdentOrIndex::from')
-    ok = (isinstance(t, tuple) and t[0] == 'iflet' and t[1] == 'Some(_)' and t[2] == P(0)
-          and isinstance(t[3], tuple) and t[3][0] == 'call' and t[3][1] in FROM and t[3][2:] == (('some_of', P(0)),)
-          and isinstance(t[4], tuple) and t[4][0] == 'call' and t[4][1] in FROM and t[4][2:] == (P(1),))
+    def named_ok(x):
+        return isinstance(x, tuple) and x[0] == 'call' and ((x[1] in FROM and x[2:] == (('some_of', P(0)),))
+                                                            or (x[1] in ('Self::Ident', 'IdentOrIndex::Ident') and x[2:] == (('some_of', P(0)),)))
+
+    def index_ok(x):
+        return isinstance(x, tuple) and x[0] == 'call' and ((x[1] in FROM and x[2:] == (P(1),))
+                                                            or (x[1] in ('Self::Index', 'IdentOrIndex::Index') and len(x) == 3 and isinstance(x[2], tuple)
+                                                                and x[2][0] == 'call' and x[2][1] in ('Index::from', 'syn::Index::from') and x[2][2:] == (P(1),)))
+    ok = isinstance(t, tuple) and t[0] == 'iflet' and t[1] == 'Some(_)' and t[2] == P(0) and named_ok(t[3]) and index_ok(t[4])
     (rep.ok(rule, f.qname + '|ident-else-index') if ok else rep.bad(rule, f.qname, 'shape', 'the member of a field is no longer "its identifier, else its declaration index"', f.file, f.line))
     want = {
         ('Ident', False): ('call', 'Self::Ident', P(0)), ('Index', False): ('call', 'Self::Index', P(0)), ('Ident', True): ('call', 'Self::Ident', P(0)),
@@ -184,6 +190,10 @@ def check_type_with_meta(cx, rep, rule='PARAM'):
     LIST = '$0.parse_terminated(Meta::parse,Token!(,))?'
     want = {(('if($0.is_empty())',), 'Ok(Self{ty:%s,list:Punctuated::new()})' % TY), (('!if($0.is_empty())',), 'Ok(Self{ty:%s,list:%s})' % (TY, LIST))}
     ok = set(rows) == want or set(rows) == {(('!if(!$0.is_empty())',), 'Ok(Self{ty:%s,list:Punctuated::new()})' % TY), (('if(!$0.is_empty())',), 'Ok(Self{ty:%s,list:%s})' % (TY, LIST))}
+    # the same decision written as one expression: `list: if input.is_empty() { new() } else { comma; rest }`
+    alt = {((), 'Ok(Self{ty:%s,list:if$0.is_empty(){Punctuated::new()}else{$0.parse::<Token!(,)>()?;%s}})' % (TY, LIST)),
+           ((), 'Ok(Self{ty:%s,list:if!$0.is_empty(){$0.parse::<Token!(,)>()?;%s}else{Punctuated::new()}})' % (TY, LIST))}
+    ok = ok or (len(rows) == 1 and set(rows) & alt)
     # order of the parser calls on the input: type, emptiness test, comma, remaining metas
     fw = cx.fw(f)
     tm = cx.gm.terms_of(fw)
